@@ -8,7 +8,9 @@ import (
 	"crypto/cipher"
 	"fmt"
 	"io"
+	"net"
 	"testing"
+	"time"
 
 	mcnet "github.com/Tnze/go-mc/net"
 	"github.com/Tnze/go-mc/net/CFB8"
@@ -254,6 +256,9 @@ type C10Conn struct {
 	BothWays  bool       `json:"both_ways"`
 	// Keep: each packet is received into its own Packet; all are compared again at the end
 	Keep bool `json:"keep,omitempty"`
+	// EOFData: the transport hands over the last bytes together with io.EOF (the peer hung up right after
+	// its last packet)
+	EOFData bool `json:"eof_with_data,omitempty"`
 }
 
 func c10CheckConn(c C10Conn) *pbt.Violation {
@@ -262,6 +267,10 @@ func c10CheckConn(c C10Conn) *pbt.Violation {
 	blk, _ := aes.NewCipher(key)
 	a, b := iox.NewDuplex()
 	a.MaxChunk, b.MaxChunk = c.Chunk, c.Chunk
+	if c.EOFData {
+		a.EOFWithData()
+		b.EOFWithData()
+	}
 	ca, cb := mcnet.WrapConn(a), mcnet.WrapConn(b)
 	// vanilla uses the shared secret as key and IV, each end with its own enc/dec streams
 	ca.SetCipher(CFB8.NewCFB8Encrypt(blk, key), CFB8.NewCFB8Decrypt(blk, key))
@@ -326,6 +335,7 @@ var c10Conn = pbt.Register(pbt.Prop[C10Conn]{
 		c.Chunk = rapid.SampledFrom([]int{0, 1, 5, 16, 17, 33, 100}).Draw(t, "chunk")
 		c.BothWays = rapid.Bool().Draw(t, "both")
 		c.Keep = rapid.Bool().Draw(t, "keep")
+		c.EOFData = rapid.Bool().Draw(t, "eofdata")
 		return c
 	},
 	Check: c10CheckConn,
@@ -340,3 +350,130 @@ var c10Conn = pbt.Register(pbt.Prop[C10Conn]{
 })
 
 func TestC10Conn(t *testing.T) { pbt.Run(t, c10Conn) }
+
+// ---- the same through ListenMC / Accept / DialMC on loopback TCP, encryption enabled mid-stream -------
+//
+// As in a login: some plain packets first, then both ends switch encryption on and the client sends on
+// without waiting for anything (its first encrypted bytes may already have reached the server's socket -
+// and any read-ahead the server's Conn does - when the server reads the last plain packet).
+
+type C10Listen struct {
+	Seed      uint64     `json:"seed"`
+	Threshold int        `json:"threshold"`
+	Plain     []C07Frame `json:"plain"`
+	Frames    []C07Frame `json:"frames"`
+}
+
+func c10CheckListen(c C10Listen) *pbt.Violation {
+	l, err := mcnet.ListenMC("127.0.0.1:0")
+	if err != nil {
+		return pbt.V("harness:c10listen", "harness", "ListenMC: %v", err)
+	}
+	defer l.Close()
+	type acc struct {
+		c   mcnet.Conn
+		err error
+	}
+	accepted := make(chan acc, 1)
+	go func() {
+		sc, err := l.Accept()
+		accepted <- acc{sc, err}
+	}()
+	cl, err := mcnet.DialMC(l.Addr().String())
+	if err != nil {
+		return pbt.V("harness:c10listen", "harness", "DialMC: %v", err)
+	}
+	var srv mcnet.Conn
+	select {
+	case a := <-accepted:
+		if a.err != nil {
+			cl.Close()
+			return pbt.V("harness:c10listen", "harness", "Accept: %v", a.err)
+		}
+		srv = a.c
+	case <-time.After(10 * time.Second):
+		cl.Close()
+		return pbt.V("harness:c10listen", "harness", "Accept did not return")
+	}
+	defer cl.Close()
+	defer srv.Close()
+	if tc, ok := srv.Socket.(*net.TCPConn); ok {
+		tc.SetLinger(0) // no TIME_WAIT left behind by thousands of cases
+	}
+	deadline := time.Now().Add(8 * time.Second)
+	srv.Socket.SetDeadline(deadline)
+	cl.Socket.SetDeadline(deadline)
+	cl.SetThreshold(c.Threshold)
+	srv.SetThreshold(c.Threshold)
+	seed := c.Seed
+	key := seedBytes(&seed, 16)
+	blk, _ := aes.NewCipher(key)
+	// the client says everything it has to say: plain packets, then encrypted ones
+	for i, f := range c.Plain {
+		if err := cl.WritePacket(pk.Packet{ID: f.ID, Data: f.payload()}); err != nil {
+			return pbt.V("harness:c10listen", "harness", "client plain WritePacket #%d: %v", i, err)
+		}
+	}
+	cl.SetCipher(CFB8.NewCFB8Encrypt(blk, key), CFB8.NewCFB8Decrypt(blk, key))
+	for i, f := range c.Frames {
+		if err := cl.WritePacket(pk.Packet{ID: f.ID, Data: f.payload()}); err != nil {
+			return pbt.V("c10.listen.write", "encrypted connection", "client encrypted WritePacket #%d: %v", i, err)
+		}
+	}
+	// the server reads the plain ones, switches, reads the rest
+	var p pk.Packet
+	for i, f := range c.Plain {
+		if err := srv.ReadPacket(&p); err != nil {
+			return pbt.V("c10.listen.plain", "packets before encryption is enabled", "server ReadPacket of plain packet #%d: %v", i, err)
+		}
+		if p.ID != f.ID || !bytes.Equal(p.Data, f.payload()) {
+			return pbt.V("c10.listen.plain", "packets before encryption is enabled", "plain packet #%d arrived changed", i)
+		}
+	}
+	srv.SetCipher(CFB8.NewCFB8Encrypt(blk, key), CFB8.NewCFB8Decrypt(blk, key))
+	for i, f := range c.Frames {
+		var err error
+		if pv, stack := pbt.Try(func() { err = srv.ReadPacket(&p) }); pv != nil {
+			return pbt.V(pbt.PanicKey("c10.listen", stack), "no panic", "server ReadPacket #%d panicked: %v\n%s", i, pv, stack)
+		}
+		if err != nil {
+			return pbt.V("c10.listen.read", "a connection on which both ends enabled encryption delivers every packet intact and in order",
+				"accepted connection, %d plain packets then encryption on both ends: encrypted packet #%d of %d (thr %d): %v", len(c.Plain), i, len(c.Frames), c.Threshold, err)
+		}
+		if p.ID != f.ID || !bytes.Equal(p.Data, f.payload()) {
+			return pbt.V("c10.listen.content", "every packet intact and in order", "encrypted packet #%d: got id %d/%d bytes, want id %d/%d bytes (thr %d)", i, p.ID, len(p.Data), f.ID, f.Len, c.Threshold)
+		}
+	}
+	// and back: the server's first encrypted packet to the client
+	back := pk.Packet{ID: 0x2a, Data: seedBytes(&seed, 100)}
+	if err := srv.WritePacket(back); err != nil {
+		return pbt.V("c10.listen.write", "encrypted connection", "server WritePacket: %v", err)
+	}
+	if err := cl.ReadPacket(&p); err != nil || p.ID != back.ID || !bytes.Equal(p.Data, back.Data) {
+		return pbt.V("c10.listen.back", "delivers every packet intact (server to client)", "client ReadPacket: err=%v id=%d len=%d", err, p.ID, len(p.Data))
+	}
+	return nil
+}
+
+var c10Listen = pbt.Register(pbt.Prop[C10Listen]{
+	Name: "C10Listen",
+	Gen: func(t *rapid.T) C10Listen {
+		c := C10Listen{Seed: rapid.Uint64().Draw(t, "seed"), Threshold: rapid.SampledFrom([]int{-1, 0, 64, 256}).Draw(t, "thr")}
+		for i, n := 0, rapid.IntRange(1, 3).Draw(t, "nplain"); i < n; i++ {
+			id := genID(t)
+			c.Plain = append(c.Plain, C07Frame{ID: id, Len: genLen(t, c.Threshold, id, false) % 600, Kind: rapid.IntRange(0, 2).Draw(t, "kind"), Seed: rapid.Byte().Draw(t, "pseed")})
+		}
+		for i, n := 0, rapid.IntRange(1, 8).Draw(t, "nframes"); i < n; i++ {
+			id := genID(t)
+			c.Frames = append(c.Frames, C07Frame{ID: id, Len: genLen(t, c.Threshold, id, false) % 2000, Kind: rapid.IntRange(0, 2).Draw(t, "kind"), Seed: rapid.Byte().Draw(t, "fseed")})
+		}
+		return c
+	},
+	Check: c10CheckListen,
+	Classify: func(c C10Listen) (bool, []string, []byte) {
+		return true, []string{fmt.Sprintf("listen_thr_%d", c.Threshold)}, nil
+	},
+	Quick: 1200, Thorough: 24000,
+})
+
+func TestC10Listen(t *testing.T) { pbt.Run(t, c10Listen) }
